@@ -336,16 +336,25 @@ Section ExecP.
   Variable exec : S -> stmt -> res S.
   Variable cmt : S -> S.
   Variable init : S.
+  (* how a tag is read: [keep_tag] (the code) or [rtrim] (without the blanks at its end) or anything else *)
+  Variable norm : string -> string.
   Notation blockT := (block (role stmt)).
   Notation run_doc := (@run_doc S stmt string exec cmt init).
   Notation run_items := (@run_items S stmt exec cmt).
+  Notation elem_of_block := (@elem_of_block stmt norm).
+  Notation elems_of := (@elems_of stmt norm).
+  Notation main_of_block := (@main_of_block stmt norm).
+  Notation ns_of_block := (@ns_of_block stmt norm).
+  Notation block_executes := (@block_executes stmt norm).
+  Notation fence_kind := (@fence_kind stmt norm).
+  Notation doc_elems := (@doc_elems stmt norm).
 
   Lemma main_items_app (d1 d2 : list (elem stmt string)) : main_items (d1 ++ d2) = main_items d1 ++ main_items d2.
   Proof. unfold main_items. apply flat_map_app. Qed.
 
   Lemma main_of_block_ok (b : blockT) : main_items (elem_of_block b) = main_of_block b.
   Proof.
-    destruct b as [f|l]; cbn [elem_of_block main_of_block].
+    destruct b as [f|l]; cbn [DocScan.elem_of_block DocScan.main_of_block].
     - destruct (fence_kind f); cbn; rewrite ?app_nil_r; reflexivity.
     - unfold item_of_line. destruct (snd l); cbn; reflexivity.
   Qed.
@@ -355,7 +364,7 @@ Section ExecP.
   Theorem main_of_blocks (bs : list blockT) : main_items (elems_of bs) = flat_map main_of_block bs.
   Proof.
     induction bs as [|b bs IH]; [reflexivity|].
-    unfold elems_of in *. cbn [flat_map]. rewrite main_items_app, IH, main_of_block_ok. reflexivity.
+    unfold DocScan.elems_of in *. cbn [flat_map]. rewrite main_items_app, IH, main_of_block_ok. reflexivity.
   Qed.
 
   Lemma ns_fences_app n (d1 d2 : list (elem stmt string)) : ns_fences n (d1 ++ d2) = ns_fences n d1 ++ ns_fences n d2.
@@ -366,7 +375,7 @@ Section ExecP.
 
   Lemma ns_of_block_ok n (b : blockT) : ns_fences n (elem_of_block b) = ns_of_block n b.
   Proof.
-    destruct b as [f|l]; cbn [elem_of_block ns_of_block].
+    destruct b as [f|l]; cbn [DocScan.elem_of_block DocScan.ns_of_block].
     - destruct (fence_kind f); cbn; try reflexivity. destruct (String.eqb n n0); reflexivity.
     - destruct (snd l); reflexivity.
   Qed.
@@ -375,7 +384,7 @@ Section ExecP.
   Theorem ns_of_blocks n (bs : list blockT) : ns_fences n (elems_of bs) = flat_map (ns_of_block n) bs.
   Proof.
     induction bs as [|b bs IH]; [reflexivity|].
-    unfold elems_of in *. cbn [flat_map]. rewrite ns_fences_app, IH, ns_of_block_ok. reflexivity.
+    unfold DocScan.elems_of in *. cbn [flat_map]. rewrite ns_fences_app, IH, ns_of_block_ok. reflexivity.
   Qed.
 
   Lemma strip_prose_app (d1 d2 : list (elem stmt string)) : strip_prose (d1 ++ d2) = strip_prose d1 ++ strip_prose d2.
@@ -384,7 +393,7 @@ Section ExecP.
   Lemma strip_block (b : blockT) :
     strip_prose (elem_of_block b) = if block_executes b then elem_of_block b else [].
   Proof.
-    destruct b as [f|l]; cbn [elem_of_block block_executes].
+    destruct b as [f|l]; cbn [DocScan.elem_of_block DocScan.block_executes].
     - destruct (fence_kind f); reflexivity.
     - destruct (snd l); reflexivity.
   Qed.
@@ -392,7 +401,7 @@ Section ExecP.
   Lemma strip_elems (bs : list blockT) : strip_prose (elems_of bs) = elems_of (filter block_executes bs).
   Proof.
     induction bs as [|b bs IH]; [reflexivity|].
-    unfold elems_of in *. cbn [flat_map filter]. rewrite strip_prose_app, IH, strip_block.
+    unfold DocScan.elems_of in *. cbn [flat_map filter]. rewrite strip_prose_app, IH, strip_block.
     destruct (block_executes b) eqn:E; [|reflexivity].
     cbn [flat_map]. reflexivity.
   Qed.
@@ -414,20 +423,20 @@ Section ExecP.
   (* written and read back: the document executes what its blocks say *)
   Theorem doc_elems_render (bs : list blockT) :
     wf_blocks role_is_code true bs -> doc_elems (render RFence bs) = Some (elems_of bs).
-  Proof. intros H. unfold doc_elems, scan_doc. rewrite (scan_render_doc _ _ _ H). reflexivity. Qed.
+  Proof. intros H. unfold DocScan.doc_elems, scan_doc. rewrite (scan_render_doc _ _ _ H). reflexivity. Qed.
 
   Theorem doc_elems_unclosed (bs : list blockT) ind sg raw body :
     wf_blocks role_is_code true bs -> all_blank ind = true -> (eat_after role_is_code true bs = true \/ ind = "") ->
     (forall l, In l body -> find_sig sg (fst l) = None) ->
     doc_elems (render RFence bs ++ ((ind ++ sig_str sg ++ raw)%string, RFence) :: body) = None.
-  Proof. intros H1 H2 H3 H4. unfold doc_elems, scan_doc. rewrite (scan_unclosed _ _ _ _ _ _ _ H1 H2 H3 H4). reflexivity. Qed.
+  Proof. intros H1 H2 H3 H4. unfold DocScan.doc_elems, scan_doc. rewrite (scan_unclosed _ _ _ _ _ _ _ H1 H2 H3 H4). reflexivity. Qed.
 
   (* two fences run in the same interpreter iff they have the same name *)
   Theorem same_namespace_iff (f1 f2 : fence (role stmt)) n1 n2 :
     fence_kind f1 = TNamed n1 -> fence_kind f2 = TNamed n2 ->
     ((exists n, ns_of_block n (BFence f1) <> [] /\ ns_of_block n (BFence f2) <> []) <-> n1 = n2).
   Proof.
-    intros K1 K2. cbn [ns_of_block]. rewrite K1, K2. split.
+    intros K1 K2. cbn [DocScan.ns_of_block]. rewrite K1, K2. split.
     - intros (n & A & B). destruct (String.eqb n n1) eqn:E1; [|contradiction]. destruct (String.eqb n n2) eqn:E2; [|contradiction].
       apply String.eqb_eq in E1, E2. congruence.
     - intros ->. exists n2. rewrite String.eqb_refl. split; discriminate.
@@ -481,22 +490,64 @@ Proof.
   - apply ns_checks_eq, En.
 Qed.
 
-(* the property that an `ok` verdict of the line judge transports to the implementation's behaviour on the case:
-   the document is exactly the lines; either the model finds a fence that is never closed and the real parser
-   rejected the document, or the model finds the blocks bs, every block is of a modelled shape, the parsed tree has
-   exactly the model's fenced blocks and top-level code runs (kinds, names, disabled / hidden flags, items, bodies),
-   and the tables of the document equal those of the code-only documents of the scanned elements *)
-Definition C10_scan_spec (ls : list jline) (os : list (dobs * option (list sblock))) : Prop :=
-  exists D got rest, os = (D, Some got) :: rest /\ o_src D = unlines ls /\
-    ((exists bs i s r b, scan_doc (prep ls) = Unclosed bs i s r b /\ is_perr (o_res D) = true) \/
-     (exists bs M x rest', scan_doc (prep ls) = Closed bs /\ rest = (M, x) :: rest' /\
-        anomaly (prep ls) bs = None /\ summary bs = got /\
-        algebra_spec (elems_of bs) D M (map fst rest'))).
-
 Lemma v_ok_inj a b : v_ok a = v_ok b -> a = b.
 Proof. unfold v_ok. intros H. injection H as ->. reflexivity. Qed.
 Lemma sx_eqb_v_ok s : sx_eqb (v_ok s) (v_ok s) = true.
 Proof. unfold v_ok. cbn. rewrite String.eqb_refl. reflexivity. Qed.
+
+(* the algebra comparison answers `ok` only with the stream as tag, and never a finding id of the scanner *)
+Lemma judge_algebra_ok_tag stream d D M rest tag :
+  judge_algebra stream d D M rest = Some (v_ok tag) -> tag = stream.
+Proof.
+  unfold judge_algebra.
+  destruct (negb (String.eqb (o_src M) (main_only d))); [discriminate|].
+  destruct (is_perr (o_res M)); [discriminate|].
+  destruct (is_perr (o_res D)).
+  { destruct (negb (stream_binding stream)); [discriminate|]. destruct (kf_list_dash d); discriminate. }
+  destruct (ns_checks d D (ns_names d) rest) as [nsr|]; [|discriminate].
+  destruct (negb (sx_eqb (o_res D) (o_res M))); [discriminate|].
+  destruct (negb (Nat.eqb (List.length (o_subs D)) (List.length (ns_names d)))); [discriminate|].
+  destruct (table_check (last_is_cmt (d_main (jrun d))) (o_main D) (o_main M)); destruct nsr; try discriminate.
+  intros H. injection H as ->. reflexivity.
+Qed.
+
+(* what an `ok` of one reading of the tags means: every block is of a modelled shape, the parsed tree has exactly the
+   model's fenced blocks and top-level code runs (kinds, names, disabled / hidden flags, items, bodies), and the tables
+   of the document equal those of the code-only documents of the scanned elements *)
+Definition variant_spec (norm : string -> string) (pl : list (string * role jstmt)) (bs : list (block (role jstmt)))
+                        (D : dobs) (got : list sblock) (rest : list (dobs * option (list sblock))) : Prop :=
+  exists M x rest', rest = (M, x) :: rest' /\ anomaly norm pl bs = None /\ summary norm bs = got /\
+    algebra_spec (elems_of norm bs) D M (map fst rest').
+
+Lemma judge_variant_ok norm stream pl bs D got rest tag :
+  judge_variant norm stream pl bs D got rest = Some (v_ok tag) -> tag = stream /\ variant_spec norm pl bs D got rest.
+Proof.
+  unfold judge_variant. destruct (anomaly norm pl bs) eqn:Ea; [discriminate|].
+  destruct (forallb elem_ok (elems_of norm bs)); cbn [negb]; [|discriminate].
+  destruct rest as [|[M x] rest']; [discriminate|].
+  destruct (judge_algebra stream (elems_of norm bs) D M (map fst rest')) as [v|] eqn:Ej; [|discriminate].
+  destruct (sx_eqb v (v_ok stream)) eqn:Eok; cbn [negb].
+  - apply sx_eqb_eq in Eok. subst v. apply judge_algebra_ok in Ej.
+    unfold blocks_check. destruct (sblocks_eqb (summary norm bs) got) eqn:Eb.
+    + intros H. injection H as <-. split; [reflexivity|].
+      exists M, x, rest'. split; [reflexivity|]. split; [exact Ea|]. split; [apply sblocks_eqb_eq, Eb|exact Ej].
+    + destruct (sblocks_eqb (fences_only (summary norm bs)) (fences_only got)); [|discriminate].
+      destruct (stream_binding stream); discriminate.
+  - intros H. injection H as ->. apply judge_algebra_ok_tag in Ej. subst tag.
+    rewrite sx_eqb_v_ok in Eok. discriminate.
+Qed.
+
+(* the property that an `ok` verdict of the line judge transports to the implementation's behaviour on the case:
+   the document is exactly the lines; either the model finds a fence that is never closed and the real parser rejected
+   the document, or the model finds the blocks bs and the observation is what the model says — under the code's reading
+   of the tags outside the class fence-info-trailing-blank, under the reading without the blanks inside it *)
+Definition C10_scan_spec (ls : list jline) (os : list (dobs * option (list sblock))) : Prop :=
+  exists D got rest, os = (D, Some got) :: rest /\ o_src D = unlines ls /\
+    ((exists bs i s r b, scan_doc (prep ls) = Unclosed bs i s r b /\ is_perr (o_res D) = true) \/
+     (exists bs, scan_doc (prep ls) = Closed bs /\
+        ((kf_trailing_blank bs = false /\ variant_spec keep_tag (prep ls) bs D got rest) \/
+         (kf_trailing_blank bs = true /\ exists bsT n, scan_doc (prep_sel true ls) = Closed bsT /\
+            variant_spec rtrim (prep_sel true ls) bsT D got (firstn n rest))))).
 
 Theorem judge_lines_sound stream listed ls os tag :
   judge_lines stream listed ls os = Some (v_ok tag) -> C10_scan_spec ls os.
@@ -504,34 +555,22 @@ Proof.
   unfold judge_lines. destruct os as [|[D [got|]] rest]; try discriminate.
   destruct (String.eqb (o_src D) (unlines ls)) eqn:Es; cbn [negb]; [|discriminate]. apply String.eqb_eq in Es.
   destruct (scan_doc (prep ls)) as [bs|bs i s r b] eqn:Esc.
-  - destruct (anomaly (prep ls) bs) eqn:Ea; [discriminate|].
-    destruct (forallb elem_ok (elems_of bs)); cbn [negb]; [|discriminate].
-    destruct rest as [|[M x] rest']; [discriminate|].
-    destruct (judge_algebra stream (elems_of bs) D M (map fst rest')) as [v|] eqn:Ej; [|discriminate].
-    destruct (sx_eqb v (v_ok stream)) eqn:Eok; cbn [negb].
-    + apply sx_eqb_eq in Eok. subst v. apply judge_algebra_ok in Ej.
-      unfold blocks_check. destruct (sblocks_eqb (summary bs) got) eqn:Eb.
-      * destruct (kf_trailing_blank bs).
+  - destruct (kf_trailing_blank bs) eqn:Ek; cbn [negb].
+    + destruct (scan_doc (prep_sel true ls)) as [bsT|] eqn:EscT; [|discriminate].
+      set (n := Datatypes.S (2 * List.length (ns_names (elems_of rtrim bsT)))).
+      destruct (judge_variant rtrim stream (prep_sel true ls) bsT D got (firstn n rest)) as [vS|] eqn:EvS; [|discriminate].
+      destruct (judge_variant keep_tag stream (prep ls) bs D got (skipn n rest)) as [vI|] eqn:EvI; [|discriminate].
+      destruct (sx_eqb vS (v_ok stream)) eqn:EokS.
+      * apply sx_eqb_eq in EokS. subst vS. intros _. apply judge_variant_ok in EvS as [_ Hs].
+        exists D, got, rest. split; [reflexivity|]. split; [exact Es|]. right. exists bs. split; [exact Esc|].
+        right. split; [exact Ek|]. exists bsT, n. split; [exact EscT|exact Hs].
+      * destruct (sx_eqb vI (v_ok stream)).
         { destruct (mem "fence-info-trailing-blank" listed); discriminate. }
-        intros _.
-        exists D, got, ((M, x) :: rest'). split; [reflexivity|]. split; [exact Es|]. right.
-        exists bs, M, x, rest'. split; [exact Esc|]. split; [reflexivity|]. split; [exact Ea|].
-        split; [apply sblocks_eqb_eq, Eb|exact Ej].
-      * destruct (sblocks_eqb (fences_only (summary bs)) (fences_only got)); [|discriminate].
-        destruct (stream_binding stream); discriminate.
-    + intros H. injection H as ->.
-      (* the algebra verdict was `ok tag` with tag <> stream: impossible, it only answers `ok stream` *)
-      unfold judge_algebra in Ej.
-      destruct (negb (String.eqb (o_src M) (main_only (elems_of bs)))); [discriminate|].
-      destruct (is_perr (o_res M)); [discriminate|].
-      destruct (is_perr (o_res D)).
-      { destruct (negb (stream_binding stream)); [discriminate|]. destruct (kf_list_dash (elems_of bs)); discriminate. }
-      destruct (ns_checks (elems_of bs) D (ns_names (elems_of bs)) (map fst rest')) as [nsr|]; [|discriminate].
-      destruct (negb (sx_eqb (o_res D) (o_res M))); [discriminate|].
-      destruct (negb (Nat.eqb (List.length (o_subs D)) (List.length (ns_names (elems_of bs))))); [discriminate|].
-      destruct (table_check (last_is_cmt (d_main (jrun (elems_of bs)))) (o_main D) (o_main M)); destruct nsr; try discriminate.
-      injection Ej as Ej. subst tag.
-      rewrite sx_eqb_v_ok in Eok. discriminate.
+        intros H. injection H as ->. apply judge_variant_ok in EvS as [-> _].
+        rewrite sx_eqb_v_ok in EokS. discriminate.
+    + intros H. apply judge_variant_ok in H as [_ Hs].
+      exists D, got, rest. split; [reflexivity|]. split; [exact Es|]. right. exists bs. split; [exact Esc|].
+      left. split; [exact Ek|exact Hs].
   - destruct (line_blocks_anomaly bs); [discriminate|].
     destruct (is_perr (o_res D)) eqn:Ep; [|discriminate].
     intros _. exists D, got, rest. split; [reflexivity|]. split; [exact Es|]. left.
@@ -539,36 +578,80 @@ Proof.
 Qed.
 
 (* a `kf fence-info-trailing-blank` verdict is given only inside the class and only when the observation is the
-   model's prediction of what the real code does there (tree and tables) *)
+   model's prediction of what the real code does there (tree and tables), under the code's reading of the tags *)
+Lemma judge_variant_never_kf norm stream pl bs D got rest :
+  judge_variant norm stream pl bs D got rest <> Some (v_kf "fence-info-trailing-blank").
+Proof.
+  unfold judge_variant. destruct (anomaly norm pl bs); [discriminate|].
+  destruct (negb (forallb elem_ok (elems_of norm bs))); [discriminate|].
+  destruct rest as [|[M x] rest']; [discriminate|].
+  destruct (judge_algebra stream (elems_of norm bs) D M (map fst rest')) as [v|] eqn:Ej; [|discriminate].
+  destruct (sx_eqb v (v_ok stream)) eqn:Eok; cbn [negb].
+  - apply sx_eqb_eq in Eok. subst v. destruct (blocks_check (summary norm bs) got); try discriminate.
+    destruct (stream_binding stream); discriminate.
+  - intros H. injection H as ->. revert Ej. unfold judge_algebra.
+    destruct (negb (String.eqb (o_src M) (main_only (elems_of norm bs)))); [discriminate|].
+    destruct (is_perr (o_res M)); [discriminate|].
+    destruct (is_perr (o_res D)).
+    { destruct (negb (stream_binding stream)); [discriminate|]. destruct (kf_list_dash (elems_of norm bs)); discriminate. }
+    destruct (ns_checks (elems_of norm bs) D (ns_names (elems_of norm bs)) (map fst rest')) as [nsr|]; [|discriminate].
+    destruct (negb (sx_eqb (o_res D) (o_res M))); [discriminate|].
+    destruct (negb (Nat.eqb (List.length (o_subs D)) (List.length (ns_names (elems_of norm bs))))); [discriminate|].
+    destruct (table_check (last_is_cmt (d_main (jrun (elems_of norm bs)))) (o_main D) (o_main M)); destruct nsr; discriminate.
+Qed.
+
 Theorem judge_lines_kf_sound stream listed ls os :
   judge_lines stream listed ls os = Some (v_kf "fence-info-trailing-blank") ->
-  exists D got M x rest' bs, os = (D, Some got) :: (M, x) :: rest' /\ scan_doc (prep ls) = Closed bs /\
-    kf_trailing_blank bs = true /\ summary bs = got /\ algebra_spec (elems_of bs) D M (map fst rest').
+  exists D got rest bs n, os = (D, Some got) :: rest /\ scan_doc (prep ls) = Closed bs /\
+    kf_trailing_blank bs = true /\ variant_spec keep_tag (prep ls) bs D got (skipn n rest).
 Proof.
   unfold judge_lines. destruct os as [|[D [got|]] rest]; try discriminate.
   destruct (String.eqb (o_src D) (unlines ls)); cbn [negb]; [|discriminate].
   destruct (scan_doc (prep ls)) as [bs|bs i s r b] eqn:Esc.
-  - destruct (anomaly (prep ls) bs) eqn:Ea; [discriminate|].
-    destruct (forallb elem_ok (elems_of bs)); cbn [negb]; [|discriminate].
-    destruct rest as [|[M x] rest']; [discriminate|].
-    destruct (judge_algebra stream (elems_of bs) D M (map fst rest')) as [v|] eqn:Ej; [|discriminate].
-    destruct (sx_eqb v (v_ok stream)) eqn:Eok; cbn [negb].
-    + apply sx_eqb_eq in Eok. subst v. apply judge_algebra_ok in Ej.
-      unfold blocks_check. destruct (sblocks_eqb (summary bs) got) eqn:Eb.
-      * destruct (kf_trailing_blank bs) eqn:Ek; [|discriminate].
-        intros _. exists D, got, M, x, rest', bs.
-        split; [reflexivity|]. split; [reflexivity|]. split; [exact Ek|]. split; [apply sblocks_eqb_eq, Eb|exact Ej].
-      * destruct (sblocks_eqb (fences_only (summary bs)) (fences_only got)); [|discriminate].
-        destruct (stream_binding stream); discriminate.
-    + (* the algebra comparison never answers this id *)
-      intros H. injection H as ->. unfold judge_algebra in Ej.
-      destruct (negb (String.eqb (o_src M) (main_only (elems_of bs)))); [discriminate|].
-      destruct (is_perr (o_res M)); [discriminate|].
-      destruct (is_perr (o_res D)).
-      { destruct (negb (stream_binding stream)); [discriminate|]. destruct (kf_list_dash (elems_of bs)); discriminate. }
-      destruct (ns_checks (elems_of bs) D (ns_names (elems_of bs)) (map fst rest')) as [nsr|]; [|discriminate].
-      destruct (negb (sx_eqb (o_res D) (o_res M))); [discriminate|].
-      destruct (negb (Nat.eqb (List.length (o_subs D)) (List.length (ns_names (elems_of bs))))); [discriminate|].
-      destruct (table_check (last_is_cmt (d_main (jrun (elems_of bs)))) (o_main D) (o_main M)); destruct nsr; discriminate.
+  - destruct (kf_trailing_blank bs) eqn:Ek; cbn [negb].
+    + destruct (scan_doc (prep_sel true ls)) as [bsT|] eqn:EscT; [|discriminate].
+      set (n := Datatypes.S (2 * List.length (ns_names (elems_of rtrim bsT)))).
+      destruct (judge_variant rtrim stream (prep_sel true ls) bsT D got (firstn n rest)) as [vS|] eqn:EvS; [|discriminate].
+      destruct (judge_variant keep_tag stream (prep ls) bs D got (skipn n rest)) as [vI|] eqn:EvI; [|discriminate].
+      destruct (sx_eqb vS (v_ok stream)) eqn:EokS.
+      * apply sx_eqb_eq in EokS. subst vS. discriminate.
+      * destruct (sx_eqb vI (v_ok stream)) eqn:EokI.
+        -- apply sx_eqb_eq in EokI. subst vI. intros _. apply judge_variant_ok in EvI as [_ Hs].
+           exists D, got, rest, bs, n. split; [reflexivity|]. split; [first [reflexivity|exact Esc]|].
+           split; [first [exact Ek|reflexivity]|exact Hs].
+        -- intros H. injection H as ->. exfalso. exact (judge_variant_never_kf _ _ _ _ _ _ _ EvS).
+    + intros H. exfalso. exact (judge_variant_never_kf _ _ _ _ _ _ _ H).
   - destruct (line_blocks_anomaly bs); [discriminate|]. destruct (is_perr (o_res D)); discriminate.
 Qed.
+
+(* ------------------------------------------------------------------------ finding fence-info-trailing-blank *)
+Lemma tagkind_eqb_eq a b : tagkind_eqb a b = true -> a = b.
+Proof. destruct a, b; cbn; try discriminate; try reflexivity. intros H. apply String.eqb_eq in H. congruence. Qed.
+
+(* the code's reading of a tag keeps the blanks at its end: an unnamed fence becomes the namespace " ", a disabled
+   fence is executed, equal names become different namespaces *)
+Theorem trailing_blank_refuted :
+  classify_tag (keep_tag "mech ") = TNamed " " /\ classify_tag (rtrim "mech ") = TUnnamed /\
+  classify_tag (keep_tag "mech:disabled ") = TNamed "disabled " /\ classify_tag (rtrim "mech:disabled ") = TDisabled /\
+  classify_tag (keep_tag "mech:a ") <> classify_tag (keep_tag "mech:a") /\
+  classify_tag (rtrim "mech:a ") = classify_tag (rtrim "mech:a").
+Proof. repeat split; try reflexivity. discriminate. Qed.
+
+Section Readings.
+  Context {stmt : Type}.
+  Definition block_in_class (b : block (role stmt)) : bool :=
+    match b with BFence f => tag_trailing_blank (f_raw f) | BLine _ => false end.
+
+  (* outside the class both readings see the same document *)
+  Theorem readings_agree (bs : list (block (role stmt))) :
+    existsb block_in_class bs = false -> elems_of keep_tag bs = elems_of rtrim bs.
+  Proof.
+    induction bs as [|b bs IH]; [reflexivity|]. cbn [existsb]. intros H.
+    apply orb_false_elim in H as [Hb Hr]. unfold elems_of in *. cbn [flat_map]. rewrite (IH Hr). f_equal.
+    destruct b as [f|l]; [|reflexivity]. cbn [block_in_class] in Hb. unfold tag_trailing_blank in Hb.
+    apply negb_false_iff, tagkind_eqb_eq in Hb. cbn [elem_of_block]. unfold fence_kind, keep_tag. rewrite Hb. reflexivity.
+  Qed.
+End Readings.
+
+Lemma kf_trailing_blank_class (bs : list (block (role jstmt))) : kf_trailing_blank bs = existsb block_in_class bs.
+Proof. reflexivity. Qed.
